@@ -114,6 +114,7 @@ func runC14(c *Ctx, r *Report) {
 	c14DisplayedFromAggregator(c, r)
 	c14ScaleAgreement(c, r)
 	c14StrLenRunes(c, r, "C14-e/strlen-visible")
+	c14MoreCount(c, r, "C14-g/more-count")
 }
 
 // ---------------------------------------------------------------- palettes
